@@ -92,6 +92,7 @@ fn main() {
 	if cfg.san {
 		cfg.threads = cfg.threads.min(if cfg!(miri) { 1 } else { 8 });
 	}
+	let _ = monitor::RUN_INFO.set((cfg.verif_dir.clone(), cfg.seed, cfg.tier.name().to_string(), cfg.san || replay.is_some()));
 	monitor::install_panic_hook();
 	let code = match replay {
 		Some(p) => check::replay(&id, &cfg, &p),
